@@ -7,7 +7,11 @@ import numpy as np
 
 
 def scratch_dir(prefix="bcc"):
-    base = "/dev/shm" if os.path.isdir("/dev/shm") else os.environ.get("MDVC_SCRATCH", None)
+    # a run that hands work to child processes sets MDVC_SCRATCH_PARENT to a directory it removes at the end, so that a child killed in
+    # mid-case (a crashing codec is a recorded failure mode) leaves nothing behind
+    base = os.environ.get("MDVC_SCRATCH_PARENT") or ("/dev/shm" if os.path.isdir("/dev/shm") else os.environ.get("MDVC_SCRATCH", None))
+    if base and not os.path.isdir(base):
+        base = "/dev/shm" if os.path.isdir("/dev/shm") else None
     return tempfile.mkdtemp(prefix=f"mdvc-{prefix}-", dir=base)
 
 
